@@ -694,9 +694,8 @@ def c03_l2_scenario(binary, work, idx, rng, merged):
             return
         events = d.events()
         for kind, pwm, en in devices:
-            touched = any(e["path"] in (pwm, en) and e["op"] == "w" for e in events) if kind == "hwmon" else True
-            if kind == "file":
-                touched = l2.read_int(pwm) != orig_pwm or "ff" in out
+            # a fan fan2go never wrote to (its controller ended before its first write) was never regulated: nothing to hand back
+            touched = any(e["path"] in (pwm, en) and e["op"] == "w" for e in events) or l2.read_int(pwm, -1) != orig_pwm
             final_pwm = l2.read_int(pwm, -1)
             final_mode = l2.read_int(en, -1) if en else None
             ok = (en is not None and final_mode == orig_mode and orig_mode != 1) or final_pwm == 255
@@ -1096,7 +1095,7 @@ def c15(p, tier, work, t0, replay):
     q = tier == "quick"
     merged = vcheck.run_vh_batches(vh, p, tier, 8 if q else 16, work, 600 if q else 3000)
     binary = vbuild.build(work, src, ".", os.path.join(work, "fan2go"))
-    run_l2(lambda i, r, m: c15_l2_scenario(binary, work, i, r, m), 8 if q else 120, merged, "process-level", 53)
+    run_l2(lambda i, r, m: c15_l2_scenario(binary, work, i, r, m), 10 if q else 120, merged, "process-level", 53)
     rule = ("two layers. In-process: seeded random sequences of start / reset / init (3..7 operations) against one real bbolt database for hwmon, file and cmd fans, with / without a "
             "configured pwmMap and minPwm+maxPwm; a start = new fan and controller objects + Run() until the first regulation cycle. Process level: the real daemon is started, "
             "stopped with SIGTERM and started again, with `fan2go fan --id <id> reset|init` in between, on a hwmon and a file fan. Observed per start from the device event log: distinct "
